@@ -1,3 +1,4 @@
+mod bulk;
 mod capi;
 mod child;
 mod common;
@@ -84,6 +85,7 @@ fn main() {
         "C24" => qupd::c24(tier),
         "C15" => qchk::c15(tier),
         "C16" => qcrash::c16(tier),
+        "C30" => bulk::c30(tier),
         "C19" => qchk::c19(tier),
         "C20" => qexpr::c20(tier),
         "C21" => qexpr::c21(tier),
